@@ -50,17 +50,14 @@ fn use_pk(pk: &PK2048, rng_bytes: &[u8]) -> String {
     }));
     if r.is_ok() { "ok".into() } else { "panic".into() }
 }
-fn use_sk(sk: &SK2048, rng_bytes: &[u8]) -> String {
-    let r = catch_unwind(AssertUnwindSafe(|| {
-        let cts = [Ct::from_uint(U4096::ZERO), Ct::from_uint(U4096::ONE), Ct::from_uint(U4096::MAX), Ct::from_uint(U4096::from_be_slice(&be_fixed(&hex::encode(rng_bytes), 512)))];
-        let mut acc = 0u8;
-        for c in &cts { acc ^= sk.decrypt(c).to_uint().to_le_bytes()[0]; acc ^= sk.decrypt_fast(c).to_uint().to_le_bytes()[0]; }
-        let ip = sk.extract_n_root_init_params();
-        acc ^= sk.extract_n_root(&U2048::from_u8(3), &ip).to_le_bytes()[0];
-        let _ = sk.to_minimal();
-        acc
-    }));
-    if r.is_ok() { "ok".into() } else { "panic".into() }
+fn use_sk(sk: &SK2048, rng_bytes: &[u8]) -> Vec<(&'static str, String)> {
+    let cts = [Ct::from_uint(U4096::ZERO), Ct::from_uint(U4096::ONE), Ct::from_uint(U4096::MAX), Ct::from_uint(U4096::from_be_slice(&be_fixed(&hex::encode(rng_bytes), 512)))];
+    let cls = |r: std::thread::Result<u8>| if r.is_ok() { "ok".to_string() } else { "panic".to_string() };
+    vec![
+        ("decrypt", cls(catch_unwind(AssertUnwindSafe(|| cts.iter().fold(0u8, |a, c| a ^ sk.decrypt(c).to_uint().to_le_bytes()[0]))))),
+        ("decrypt_fast", cls(catch_unwind(AssertUnwindSafe(|| cts.iter().fold(0u8, |a, c| a ^ sk.decrypt_fast(c).to_uint().to_le_bytes()[0]))))),
+        ("extract_n_root", cls(catch_unwind(AssertUnwindSafe(|| { let ip = sk.extract_n_root_init_params(); sk.extract_n_root(&U2048::from_u8(3), &ip).to_le_bytes()[0] })))),
+    ]
 }
 
 /// `{"n":"<s>"}`-shaped text with a plain string body: the part the tiny wire model speaks about
@@ -96,7 +93,7 @@ pub fn exec(cx: &mut Cx, line: &str, t: &[&str]) {
             let said = model.map(|req| { let m = cx.ask(&req); let same = m == class_of(&imp); (req, m, same) });
             let entry = if bin { "pai.sk.bincode" } else { "pai.sk.json" };
             cx.judge(entry, line, &imp, said, class_of(&imp) == "ok");
-            if let Ok(Ok(sk)) = r { let u = use_sk(&sk, &junk); cx.judge("pai.sk.use(admitted-key)", line, &u, None, true);
+            if let Ok(Ok(sk)) = r { for (op, u) in use_sk(&sk, &junk) { cx.judge(&format!("pai.sk.use(admitted-key).{op}"), line, &u, None, true); }
                                     let u = use_pk(&sk.public_key(), &junk); cx.judge("pai.pk.use(admitted-key)", line, &u, None, true); }
         }
         "ctbin" | "ctjson" => {
